@@ -54,6 +54,8 @@ type VC struct {
 	prescanSet map[string]bool
 	locksAtEntry bool // the contract is entered with some lock held (requires held(..)): no all-free assumption
 	sliceMu  sync.Mutex
+
+	noReturnSeen bool // the function calls os.Exit / log.Fatal somewhere: paths after it are cut
 	slice    *sliceCache
 }
 
